@@ -33,6 +33,7 @@ CONSTANTS Templates,    \* sequence of node templates [path, dtype, shape, has, 
           Modes,        \* subset of {"base", "remote"}: switches offered ("local" = no switch)
           InjHosts,     \* fresh host paths for injecting definitions
           ImpHosts,     \* sequence of [host, form] for imports
+          RefKinds,     \* subset of {"inj", "imp"}: reference lines offered
           CopyOnParse,  \* machine: DIP.parse works on copy.deepcopy(self.env)
           Emit
 
@@ -321,7 +322,7 @@ MApply(S, R) == IF S.st # "ok" THEN S ELSE R
 Line(ln) == prog' = Append(prog, ln)
 
 Init == /\ prog = <<>> /\ mode = "local" /\ iS = S0 /\ mS = S0 /\ iSnap = <<>> /\ mSnap = <<>>
-        /\ cnt = [def |-> 0, mod |-> 0, ref |-> 0, late |-> 0, sw |-> 0, fresh |-> {}] /\ lastT = 0
+        /\ cnt = [def |-> 0, mod |-> 0, ref |-> 0, late |-> 0, sw |-> 0, fresh |-> {}, srcs |-> {}] /\ lastT = 0
 
 Going == iS.st = "ok"
 
@@ -341,7 +342,8 @@ Modify(j, m) ==
      /\ lit.dtype = n.dtype /\ lit.shape = n.shape
      /\ ~(n.unit = "" /\ lit.unit # "")                            \* a unit for a unitless node: not decided here
      /\ \/ cnt.ref = 0 /\ cnt.mod < MaxMod /\ cnt' = [cnt EXCEPT !.mod = @ + 1]
-        \/ cnt.ref >= 1 /\ cnt.late < MaxLate /\ cnt' = [cnt EXCEPT !.late = @ + 1, !.fresh = @ \cup {n.path}]
+        \/ /\ cnt.ref >= 1 /\ cnt.late < MaxLate /\ n.path \in cnt.fresh \cup cnt.srcs   \* later: source or host
+           /\ cnt' = [cnt EXCEPT !.late = @ + 1, !.fresh = @ \cup {n.path}]
      /\ iS' = IAssign(iS, j, lit.val, lit.shape, lit.unit)
      /\ mS' = MApply(mS, IF Find(mS.nodes, n.path) = 0 THEN Rej(mS)       \* "Modifying undefined node"
                          ELSE MModify(mS, Find(mS.nodes, n.path), lit.val, lit.dtype, lit.shape, lit.unit))
@@ -377,7 +379,8 @@ Narrow(src, qy) ==
 RefStep(iS1, mS1, ln) ==
   /\ iS' = iS1 /\ mS' = mS1 /\ Line(ln)
   /\ cnt' = [cnt EXCEPT !.ref = @ + 1, !.fresh = @ \cup (Paths(iS1.nodes) \ Paths(iS.nodes))
-                                                   \cup (IF ln.k = "inj" /\ ln.form = "mod" THEN {ln.host} ELSE {})]
+                                                   \cup (IF ln.k = "inj" /\ ln.form = "mod" THEN {ln.host} ELSE {}),
+                         !.srcs = @ \cup (IF ln.src = "" THEN {x.nd.path : x \in SeqSet(Select(iS.nodes, ln.qk, ln.q))} ELSE {})]
   /\ UNCHANGED <<mode, iSnap, mSnap, lastT>>
 
 SliceKey(n) == IF n.dtype = "str" THEN "str" ELSE "num"
@@ -393,7 +396,7 @@ InjLine(form, host, dtype, shape, src, qy, sl, u) ==
    qk |-> qy.qk, q |-> qy.q, sl |-> sl, unit |-> u]
 
 Inject ==
-  /\ Going /\ cnt.ref < MaxRef
+  /\ Going /\ cnt.ref < MaxRef /\ "inj" \in RefKinds
   /\ \E src \in Srcs : \E qy \in Queries(src) :
      /\ Narrow(src, qy)
      /\ LET sel == Select(Pool(src), qy.qk, qy.q) IN
@@ -418,7 +421,7 @@ Inject ==
                               MApply(mS, IF Find(mS.nodes, h.path) = 0 THEN Rej(mS) ELSE MInject(mS, mSnap, mode, ln)), ln)
 
 Import ==
-  /\ Going /\ cnt.ref < MaxRef
+  /\ Going /\ cnt.ref < MaxRef /\ "imp" \in RefKinds
   /\ \E src \in Srcs : \E qy \in Queries(src) : \E hk \in 1..Len(ImpHosts) :
      /\ Narrow(src, qy)
      /\ LET ln == [k |-> "imp", host |-> ImpHosts[hk].host, form |-> ImpHosts[hk].form, src |-> src,
